@@ -26,12 +26,16 @@ THEOREMS = [
 RULE = ("mutable (and field-immutable) classes biased to Array/Deque/Map fields incl. nested typed wrappers; start "
         "instance valid; histories of <=6 (quick) / <=20 (thorough) ops drawn from setattr(valid|invalid|None), del, "
         "EVERY mutator of list/dict/deque found by probing the native types (same extractor as the Lean table) with "
-        "valid|invalid|missing-index arguments, also on wrappers nested one level; snapshot after every op; "
-        "non-trivial = >=1 op; distinct by sha256 of the case line")
+        "valid|invalid|missing-index arguments, also on wrappers nested one level; snapshot after every op; 35% of the "
+        "classes carry a __validate__ hook (raises when a field equals one of <=4 listed values that the history tries to "
+        "establish; the same predicate is the model's hookOk oracle); plus an oracle-only stream: classes over "
+        "DateString/TimeString/DateField/DateTime/IPV4/HostName/JSONString/DecimalNumber/Optional fields (checks made after "
+        "the value is stored), with and without _enable_undefined_value and a multi-field hook, assignments of 14 "
+        "ill-typed / ill-formatted values; non-trivial = >=1 op; distinct by sha256 of the case line")
 ASSUMPTIONS = [
     "every op re-fetches the field value through the instance (stale wrapper references kept across a reassigning op are outside the claim)",
     "in-place mutation of values handed out by reference by design (Set, Tuple elements, Anything, untyped Array/Map contents) is outside the claim",
-    "__validate__ hooks and date/time post-assignment checks are not in the model yet",
+    "__validate__ hooks are an oracle of the model (hookOk, universally quantified in the theorems); date/time/format fields are exercised on the real code only (postcheck stream)",
 ]
 
 
@@ -40,22 +44,129 @@ def pre_build():
     wrappers.generate()
 
 
+# ---- post-assignment checks outside the model (format checks made after the value is stored, the explicit-None
+# bookkeeping of _enable_undefined_value classes, multi-field hooks): oracle-only cases built directly
+POSTCHECK_FIELDS = ["datestring", "timestring", "date", "datetime", "email", "ipv4", "hostname", "json", "decimal",
+                    "optional-int", "integer"]
+POSTCHECK_VALID = {"datestring": "2020-01-31", "timestring": "10:20:30", "date": "2020-01-31", "datetime": "01/31/20 10:20:30",
+                   "email": "a@b.com", "ipv4": "1.2.3.4", "hostname": "a.b.com", "json": "[1, 2]", "decimal": "1.5",
+                   "optional-int": None, "integer": 3}
+POSTCHECK_BAD = ["nope", "", 5, 1.5, [], {}, "2020-13-45", "25:61:00", "999.1.1.1", "a b", "{", None, "-", True]
+
+
+def _postcheck_field(kind):
+    import typedpy as T
+    return {"datestring": lambda: T.DateString(), "timestring": lambda: T.TimeString(), "date": lambda: T.DateField(),
+            "datetime": lambda: T.DateTime(), "email": lambda: T.String(pattern=T.EmailAddress.pattern), "ipv4": lambda: T.IPV4(),
+            "hostname": lambda: T.HostName(), "json": lambda: T.JSONString(), "decimal": lambda: T.DecimalNumber(minimum=0),
+            "optional-int": lambda: T.AnyOf[T.Integer(minimum=0), T.NoneField()], "integer": lambda: T.Integer(maximum=10)}[kind]()
+
+
+def postcheck_cases(rng, n):
+    out = []
+    for ci in range(n):
+        kinds = rng.sample(POSTCHECK_FIELDS, rng.randint(1, 3))
+        ops = []
+        for _ in range(rng.randint(2, 6)):
+            k = rng.randrange(len(kinds))
+            r = rng.random()
+            if r < 0.65:
+                ops.append(["set", k, rng.randrange(len(POSTCHECK_BAD))])
+            elif r < 0.85:
+                ops.append(["set-valid", k])
+            else:
+                ops.append(["set", k, POSTCHECK_BAD.index(None)])
+        out.append({"suite": "postcheck", "kinds": kinds, "ops": ops, "undefined": rng.random() < 0.4,
+                    "hook": rng.random() < 0.3})
+    return out
+
+
+def run_postcheck(case):
+    import typedpy as T
+    body = {f"f{i}": _postcheck_field(k) for i, k in enumerate(case["kinds"])}
+    body["_required"] = []
+    if case["undefined"]:
+        body["_enable_undefined_value"] = True
+    if case["hook"]:
+        def __validate__(self):
+            # a multi-field invariant: the first field must not hold the "other" valid spelling
+            if self.__dict__.get("f0") in ("2021-02-03", "11:11:11", "x@y.org", "9.9.9.9", "c.d.org", "{}", 7):
+                raise ValueError("f0: rejected by __validate__")
+        body["__validate__"] = __validate__
+    try:
+        cls = type("P", (T.Structure,), body)
+        x = cls(**{f"f{i}": POSTCHECK_VALID[k] for i, k in enumerate(case["kinds"])})
+    except Exception as e:
+        return {"skip": f"{type(e).__name__}: {e}"[:200]}
+    other_valid = {"datestring": "2021-02-03", "timestring": "11:11:11", "date": "2021-02-03", "datetime": "02/03/21 11:11:11",
+                   "email": "x@y.org", "ipv4": "9.9.9.9", "hostname": "c.d.org", "json": "{}", "decimal": "2", "optional-int": 4,
+                   "integer": 7}
+    snap = lambda: (str(x), repr(sorted((k, repr(v)) for k, v in x.__dict__.items() if k not in ("_instantiated", "_trust_supplied_values"))))
+    steps = []
+    for op in case["ops"]:
+        name = f"f{op[1]}"
+        v = POSTCHECK_BAD[op[2]] if op[0] == "set" else other_valid[case["kinds"][op[1]]]
+        before = snap()
+        try:
+            setattr(x, name, v)
+            out = "ok"
+        except Exception as e:
+            out = type(e).__name__ if not isinstance(e, (TypeError, ValueError)) else ("TypeError" if isinstance(e, TypeError) and not isinstance(e, ValueError) else "ValueError")
+        after = snap()
+        steps.append({"kind": case["kinds"][op[1]], "v": repr(v)[:40], "out": out, "changed": before != after,
+                      "before": before[0][:200], "after": after[0][:200]})
+    return {"steps": steps}
+
+
+def judge_postcheck(case, impl):
+    fails = []
+    for st in impl.get("steps", []):
+        if st["out"] != "ok" and st["changed"]:
+            fails.append((f"not-atomic:setattr:{st['kind']}", f"assigning {st['v']} to a {st['kind']} field raised {st['out']} but changed the instance: "
+                          f"{st['before']} -> {st['after']}"))
+        if st["out"] not in ("ok", "TypeError", "ValueError"):
+            fails.append((f"error-class:setattr:{st['kind']}:{st['out']}", f"assigning {st['v']} to a {st['kind']} field raised {st['out']}"))
+    return fails
+
+
 def cases(rng, tier):
-    return S.gen_cases(rng, tier, 500 if tier == "quick" else 6000, immutable=False)
+    return S.gen_cases(rng, tier, 500 if tier == "quick" else 6000, immutable=False) \
+        + postcheck_cases(rng, 300 if tier == "quick" else 5000)
 
 
 def search_cases(rng, tier):
-    return S.gen_cases(rng, "thorough", 500, immutable=False)
+    return S.gen_cases(rng, "thorough", 500, immutable=False) + postcheck_cases(rng, 1000)
 
 
-run_impl = S.run_impl
-line = S.line
-tags = S.tags
-nontrivial = S.nontrivial
-describe = S.describe
+def _p(case):
+    return case.get("suite") == "postcheck"
+
+
+def run_impl(case):
+    return run_postcheck(case) if _p(case) else S.run_impl(case)
+
+
+def line(case, impl):
+    return None if _p(case) else S.line(case, impl)
+
+
+def tags(case, impl, model):
+    if _p(case):
+        return ["stream:postcheck"] + [f"postcheck:{s['kind']}:{s['out']}" for s in impl.get("steps", [])]
+    return S.tags(case, impl, model) + (["hooked"] if case.get("hook") else [])
+
+
+def nontrivial(case):
+    return True if _p(case) else S.nontrivial(case)
+
+
+def describe(case, impl, model):
+    return {"postcheck": case, "steps": impl.get("steps")} if _p(case) else S.describe(case, impl, model)
 
 
 def judge(case, impl, model):
+    if _p(case):
+        return None, judge_postcheck(case, impl)
     msg = S.correspondence(case, impl, model)
     fails = []
     if "unbuildable" in impl or "abstraction_mismatch" in impl:
